@@ -6,11 +6,11 @@ import json, sys, os
 CLAIMED = {
  "C01": ("exploration",
          "exhaustive small-scope enumeration of layouts x cached subsets x keys against a brute-force containment oracle",
-         "Layer 1: for every layout of a table with <=3 (thorough <=4) split points over a 5-6 symbol alphabet, every subset of its regions cached, six neighbouring tables (prefix names, namespaces) and every key of length <=3 (plus keys around the 32 KiB search-key truncation), the real cache lookup is compared with the unique containing cached region of the same table (else: must go to meta). ~10^8 lookups quick; plus layer 2 (end to end on the wire, tier W): every ordered pair of 12 keys x 7 request kinds (get, put, delete, append, increment, check-and-put, batch) x 7-16 layouts of three tables on two servers - the simulated servers must never see a request for a region they do not own, and a key inside a known region must cause no meta lookup, any other exactly one.",
+         "Layer 1: for every layout of a table with <=3 (thorough <=4) split points over a 5-6 symbol alphabet, every subset of its regions cached, six neighbouring tables (prefix names, namespaces) and every key of length <=3 (plus keys around the 32 KiB search-key truncation), the real cache lookup is compared with the unique containing cached region of the same table (else: must go to meta). Table-name families include prefixes, suffixes, the same qualifier in two namespaces and names that differ from a namespaced one only at the separator byte. ~10^8 lookups quick; plus layer 2 (end to end on the wire, tier W): every ordered pair of 12 keys x 7 request kinds (get, put, delete, append, increment, check-and-put, batch) x 7-16 layouts of three tables on two servers - the simulated servers must never see a request for a region they do not own, and a key inside a known region must cause no meta lookup, any other exactly one.",
          "Scope bound on alphabet and lengths; default thread schedule in layer 2.", "DESIGN.md §4 C01"),
  "C03": ("fault_enumeration",
          "stateless model checking of the real region client: fault-position enumeration x server misbehaviours x all schedules up to a deviation bound (controlled scheduler, virtual time)",
-         "For 4 call mixes, every connection-operation index k is faulted in turn (partial writes included), every server misbehaviour is injected at every frame, with/without an external Close(); each unit is explored over all schedules with <=1 (quick) / <=2 (thorough) deviations. Oracle: exactly one completion per live call (lost = caller blocked at quiescence, duplicate = deliverer blocked or result left in the channel), ServerError class, later calls refused at once, reader/writer threads gone.",
+         "For 4 call mixes, every connection-operation index k is faulted in turn (partial writes included), every server misbehaviour is injected at every frame, with/without an external Close(); each unit is explored over all schedules with <=1 (quick) / <=2 (thorough) deviations. Oracle: exactly one completion per live call (lost = caller blocked at quiescence, duplicate = deliverer blocked or result left in the channel), ServerError class, later calls refused at once, reader/writer threads gone. Close() additionally starts at every scheduling step of the client threads, against a healthy and a silent server (interrupt units), each with <=1 (2) further deviations.",
          "Atomicity between scheduling points (channel ops, locks, atomics, Once, net.Conn methods); deviation bound; 4 call mixes of <=3 calls.", "DESIGN.md §4 C03"),
  "C18": ("model_checking",
          "stateless model checking of the real region client on a virtual clock: all schedules up to 2 deviations x server answer patterns x idle period",
@@ -30,7 +30,7 @@ CLAIMED = {
          "Heartbeat / deferred end-of-region liberties capped at one per region scanner; default thread schedule; scope bounds on rows/regions.", "DESIGN.md §4 C06"),
  "C14": ("model_checking",
          "the C06 harness with the scan ended at every point x every server chunking; server-side scanner table as observer",
-         "Every C06-style configuration (3 rows) is additionally ended after every number of Next calls by Close, cancellation, an RPC error on request j, or more_results=false while a region scanner is open, with and without a lease renewer on the virtual clock; all chunkings enumerated. Oracle: error/cancellation once then io.EOF, Close idempotent, no region scanner left open on the simulated server after draining, no client thread (renewer) left.",
+         "Every C06-style configuration (3 rows) is additionally ended after every number of Next calls by Close, cancellation, an RPC error on request j, or more_results=false while a region scanner is open, with and without a lease renewer on the virtual clock; all chunkings enumerated. Oracle: error/cancellation once then io.EOF, Close idempotent, no region scanner left open on the simulated server after draining, no client thread (renewer) left. On tier W (real client and region clients) the scan context additionally ends at every scheduling step between the first Next and the end of the scan.",
          "As C06.", "DESIGN.md §4 C14"),
  "C11": ("fault_enumeration",
          "bounded exhaustive malformed-input enumeration into the decoders and through the real reader goroutine under the controlled scheduler; allocation-driving inputs in a memory-limited sub-process",
@@ -38,27 +38,27 @@ CLAIMED = {
          "The 4-byte frame length is trusted up to 1 MiB (framing-inherent allocation not judged); default thread schedule in part B; pairs of mutations only in the thorough tier.", "DESIGN.md §4 C11"),
  "C15": ("exploration",
          "exhaustive small-size + chunk-boundary enumeration of payloads, buffer splits, block/chunk compositions, truncations and byte flips against an independent Hadoop block-stream reader and snappy decoder",
-         "Client compress -> independent reader = input = client decompress for sizes 0..64 and around 1-3 chunks (218421 B) x 3 content classes x every buffer split; conforming server streams from an independent writer in every composition of <=3 blocks x 1..3 chunks; every truncation and byte substitution of small streams must give an error or exactly what the independent reader returns (raw snappy has no checksum). Streams that declare huge lengths run in a 1 GiB sub-process.",
+         "Client compress -> independent reader = input = client decompress for sizes 0..64 and around 1-3 chunks (218421 B) x 3 content classes x every buffer split; conforming server streams from an independent writer in every composition of <=3 blocks x 1..3 chunks; every truncation and byte substitution of small streams must give an error or exactly what the independent reader returns (raw snappy has no checksum). Streams that declare huge lengths run in a 1 GiB sub-process. Every size 65..9000 (thorough 70000) x {compressible, incompressible} x state of the client's buffer pool {cold, warm, holding only a tiny buffer} is round-tripped as well, each in its own controlled execution with a deterministic pool.",
          "Differential oracle for corruption; golang/snappy is the client's codec, the check uses its own decoder.", "DESIGN.md §4 C15"),
  "C04": ("model_checking",
          "stateless model checking of the real top-level client over a simulated cluster: bounded fault scripts x cache state x event position x schedules up to a deviation bound; the cluster executor is the server-side observer",
-         "Every sequence of <=2 events from a 19-event menu (move, split, merge, eight transient exception classes, server crash / stopped / aborted, connection reset, meta move, meta NSRE, ZooKeeper errors) is applied before or concurrently with 1-2 requests on a warm or cold cache; two regions behind one shared connection; a request held in flight while the fault hits, with the fault position enumerated over the first server-side attempts; application exception and dropped table as fatal outcomes. All schedules with <=1-2 deviations. Oracle: success with the request's own value, executed by a server hosting the owning region at that moment (the executor refuses stale names); fatal errors unchanged and not re-executed; nothing blocked.",
+         "Every sequence of <=2 events from a 19-event menu (move, split, merge, eight transient exception classes, server crash / stopped / aborted, connection reset, meta move, meta NSRE, ZooKeeper errors) is applied before or concurrently with 1-2 requests on a warm or cold cache; two regions behind one shared connection; a request held in flight while the fault hits, with the fault position enumerated over the first server-side attempts; application exception and dropped table as fatal outcomes. All schedules with <=1-2 deviations. Oracle: success with the request's own value, executed by a server hosting the owning region at that moment (the executor refuses stale names); fatal errors unchanged and not re-executed; nothing blocked. Every single event of the menu is additionally fired as an interrupt at every scheduling step of the client threads while two requests are in progress (cold / warm cache, two servers / one shared connection), on tier L with <=1 (2) further deviations and on tier W.",
          "Tier L (simulated region clients); cluster model fidelity; deviation bound; scripts of length <=2 (3 sampled in thorough).", "DESIGN.md §4 C04"),
  "C07": ("model_checking",
          "stateless model checking of SendBatch on the real client over a simulated cluster: per-call outcome scripts x re-location/cancellation events x positions x schedules",
-         "Batches of 1-3 calls over 1-2 regions on 1-2 servers; for every call every outcome sequence of bounded length over {fatal, retry-later, not-serving, connection-dead} followed by success; events {cancel, table dropped so that re-location fails, meta silent then cancel so that re-location blocks, client closed} fired after the k-th user operation; schedules with <=1-2 deviations. Oracle: res[i] is call i's own payload with nil error iff a server executed it, no result mixes response and error or carries another call's error, none is empty, allOK iff every error is nil.",
+         "Batches of 1-3 calls over 1-2 regions on 1-2 servers; for every call every outcome sequence of bounded length over {fatal, retry-later, not-serving, connection-dead} followed by success; events {cancel, table dropped so that re-location fails, meta silent then cancel so that re-location blocks, client closed} fired after the k-th user operation; schedules with <=1-2 deviations. Oracle: res[i] is call i's own payload with nil error iff a server executed it, no result mixes response and error or carries another call's error, none is empty, allOK iff every error is nil. Cancellation and Close are additionally fired as interrupts at every scheduling step of SendBatch for the two-call batches with short scripts.",
          "Tier L; bounded script length; deviation bound.", "DESIGN.md §4 C07"),
  "C09": ("model_checking",
          "stateless model checking of availability channels / establishers / connection cache of the real client over a simulated cluster: concurrent callers x faults x positions x schedules up to 2-3 deviations",
-         "2-3 concurrent callers over 2-3 regions behind one or two connections, nine fault kinds (connection reset, crash with reassignment, NSRE bursts, split, split with daughter still opening, merge, server-stopped, move), either as a cold burst or with a request held in flight and the fault fired after the k-th server-side attempt. Oracle: no panic in any thread (double release = close of nil channel), all requests succeed, and at quiescence no cached region is unavailable and no client thread is still running.",
+         "2-3 concurrent callers over 2-3 regions behind one or two connections, nine fault kinds (connection reset, crash with reassignment, NSRE bursts, split, split with daughter still opening, merge, server-stopped, move), either as a cold burst or with a request held in flight and the fault fired after the k-th server-side attempt. Oracle: no panic in any thread (double release = close of nil channel), all requests succeed, and at quiescence no cached region is unavailable and no client thread is still running. Every event is additionally fired as an interrupt at every scheduling step of a cold burst of two callers and of two callers with one region known, in all layouts, with <=1 (2) further deviations.",
          "Tier L; the data-race clause is not decided by this check (a cooperative scheduler's hand-offs hide races from the detector) - see DESIGN.md §6.", "DESIGN.md §4 C09"),
  "C12": ("model_checking",
          "stateless model checking of SendBatch with the simulated cluster's executor as observer: invalid batches at every position; attempts, execution counts and per-region order judged at the servers",
-         "Invalid batches (other table / repeated call / non-batchable call / scan at every position, cold and warm cache) must be rejected as a whole with nothing reaching any server; valid batches over the C07 configuration space must never execute a call twice (increments counted in a model table), never re-send after success or a non-retryable error, never address a region that does not own the key, and keep batch order among same-region calls of one multi-request.",
+         "Invalid batches (other table / repeated call / non-batchable call / scan at every position, cold and warm cache) must be rejected as a whole with nothing reaching any server; valid batches over the C07 configuration space must never execute a call twice (increments counted in a model table), never re-send after success or a non-retryable error, never address a region that does not own the key, and keep batch order among same-region calls of one multi-request. Cancellation and Close are additionally fired as interrupts at every scheduling step of SendBatch (as C07).",
          "Tier L: order inside a multi-request is the hand-over order to the (simulated) region client; the real multi assembly is checked by C02/C05.", "DESIGN.md §4 C12"),
  "C13": ("model_checking",
          "stateless model checking with a freeze-the-world oracle on a virtual clock: every wait state x entry point x cancel/deadline x instant x schedules up to a deviation bound",
-         "The client is scripted into each wait state (ZooKeeper silent, meta silent, probe unanswered, retry back-off, server silent after the request, re-establishment with meta silent, lookup back-off; plus the region client's busy send queue on tier R); through get, put, batch with shared context, batch with one call's own context, and scanner; the context is cancelled (or its virtual deadline expires) at 0 / 20 ms / 3 s / 100 s and from that instant the environment answers nothing. Oracle: the API call returns with a context error no later than 1 s of virtual time afterwards; a batch returns with the affected call marked failed and the others untouched.",
+         "The client is scripted into each wait state (ZooKeeper silent, meta silent, probe unanswered, retry back-off, server silent after the request, re-establishment with meta silent, lookup back-off; plus the region client's busy send queue on tier R); through get, put, batch with shared context, batch with one call's own context, and scanner; the context is cancelled (or its virtual deadline expires) at 0 / 20 ms / 3 s / 100 s and from that instant the environment answers nothing. Oracle: the API call returns with a context error no later than 1 s of virtual time afterwards; a batch returns with the affected call marked failed and the others untouched. The context is additionally cancelled as an interrupt at every scheduling step of the call (first 120 / 400 client steps) in each wait state and on a healthy cluster, for every entry point, with <=1 (2) further deviations.",
          "Virtual time; tier L for all states but the send queue; deviation bound 1 (2 thorough).", "DESIGN.md §4 C13"),
  "C17": ("model_checking",
          "stateless model checking on a virtual clock: persistent-failure scripts x entry points; attempt times stamped by the simulated servers against the literal back-off table; early timer firing as counted deviations; step horizon = hot loop",
@@ -66,7 +66,7 @@ CLAIMED = {
          "Virtual clock; tier L; establishment/lookup loops are judged where they are the persisting loop.", "DESIGN.md §4 C17"),
  "C19": ("model_checking",
          "stateless model checking of Close() racing with requests, lookups, establishment and retries: Close position x environment x schedules up to a deviation bound; quiescence observer; plus the real region client's Dial racing Close on tier R",
-         "Close() (once or twice) fired immediately or after the k-th server-side attempt (k=0..6) against 1-2 concurrent requests on a cold or partly warm cache, in six environments (healthy, slow servers, retry-later, ZooKeeper errors, meta retry-later, probe refused), two layouts, all schedules with <=1 (thorough 2-3) deviations; and Dial vs Close vs a queued call on the real region client with <=2 deviations. Oracle: calls return nil or client-closed within one back-off step of Close, later calls are refused at once, every dialled connection is closed, nothing (ZooKeeper lookup, dial, request) starts once all calls have returned, no client thread is left after 2 h of virtual time.",
+         "Close() (once or twice) fired immediately or after the k-th server-side attempt (k=0..6) against 1-2 concurrent requests on a cold or partly warm cache, in six environments (healthy, slow servers, retry-later, ZooKeeper errors, meta retry-later, probe refused), two layouts, all schedules with <=1 (thorough 2-3) deviations; and Dial vs Close vs a queued call on the real region client with <=2 deviations. Oracle: calls return nil or client-closed within one back-off step of Close, later calls are refused at once, every dialled connection is closed, nothing (ZooKeeper lookup, dial, request) starts once all calls have returned, no client thread is left after 2 h of virtual time. On tier W Close additionally starts as an interrupt at every scheduling step of one (thorough two) requests, answered or held in flight by the servers, with <=1 (2) further deviations.",
          "Tier L for the top-level client (simulated region clients model the repaired real one; the real one is checked on tier R).", "DESIGN.md §4 C19"),
  "C20": ("model_checking",
          "stateless model checking of the connection cache under concurrent first use: regions x callers x all schedules with <=2 deviations; dial and open-connection counters",
